@@ -177,7 +177,9 @@ func hostileRequest(s *kernel.Sim, w *World, hostile *Actor, idn int) (raw strin
 		case "vipnode_update":
 			// peer descriptions with enode strings of every length around the id boundary (8+128)
 			pi := []ethnode.PeerInfo{{ID: ""}, {ID: "x", Enode: "enode://"}, {Enode: strings.Repeat("q", 120+s.Choose("henode", 30))}, {ID: hostile.ID}, {ID: w.Actors[0].ID},
-				{ID: "y", Enode: "enode://" + strings.Repeat("a", s.Choose("henode2", 140))}}
+				{ID: "y", Enode: "enode://" + strings.Repeat("a", s.Choose("henode2", 140))},
+				// ... and enode strings that no URL parser takes
+				{ID: "z", Enode: []string{"enode://%zz@1.2.3.4:30303", "enode://" + hostile.ID + "@[::1:30303", "http://" + hostile.ID + "@1.2.3.4:30303", "enode://" + hostile.ID + "@1.2.3.4:30303\x7f", "enode://" + hostile.ID + "@host:port", ":"}[s.Choose("henode3", 6)]}}
 			arg = pool.UpdateRequest{PeerInfo: pi[s.Choose("hpeers0", 3):], BlockNumber: 1<<64 - 1}
 		case "vipnode_host":
 			arg = pool.HostRequest{Kind: "geth", NodeURI: []string{"::::", "enode://@", "enode://" + hostile.ID + "@[::1", "http://x", strings.Repeat("a", 3000)}[s.Choose("huri", 5)]}
